@@ -228,7 +228,7 @@ class Column:
             if isinstance(elem, list):
                 for _elem in elem:
                     _type += f" {_elem.rstrip()}"
-            elif "ARRAY" in elem and elem != "ARRAY":
+            elif elem.startswith("ARRAY["):
                 _type += elem
             else:
                 _type += f" {elem}"
@@ -279,11 +279,12 @@ class Column:
 
     @staticmethod
     def process_array_types(_type: str, p_list: List) -> str:
-        if "<" not in _type and "ARRAY" in _type:
+        # the ARRAY keyword as a word of its own, not a type name that contains these letters
+        if "<" not in _type and re.search(r"\bARRAY\b|ARRAY\[", _type):
             if "[" not in p_list[-1]:
-                _type = _type.replace(" ARRAY", "[]").replace("ARRAY", "[]")
+                _type = re.sub(r" ?\bARRAY\b", "[]", _type)
             else:
-                _type = _type.replace("ARRAY", "")
+                _type = re.sub(r"ARRAY(?=\[)", "", _type)
         elif "<" in _type and "[]" in _type:
             _type = _type.replace("[]", "ARRAY")
         return _type
